@@ -1,55 +1,138 @@
 """C16  A battery is reported usable only while its data proves it healthy.
 
+All rules are decided on *path summaries* (sa/props/_c16_util.py): every path through an anchored
+function is walked symbolically; locals, parameters, helper calls and comprehension variables are
+eliminated, conditions are split into canonical atoms (`a > b` == `b < a` == `not a <= b`, De Morgan,
+ternary / early return / if-else all alike), attribute writes and calls are recorded in order.  A rule
+then quantifies over paths: "whenever <outcome> then <atoms decided so / writes / calls present>".
+
   C16.SAFE    for every disqualifying fact (stale / invalid component state / invalid relay state /
               critical error / NaN capacity for the battery; stale / invalid state / critical error
-              for the inverter) the validity predicate returns False on every path on which that fact
-              holds (partial evaluation with the fact set to true, everything else unknown), the
-              stream's flag is the conjunction of all its predicates, and WORKING/UNCERTAIN is only
-              returned when both flags hold.  The sets of operational states are a frozen table.
-  C16.TIMER   message handlers record the message timestamp and reset that stream's timer; each
-              timer branch judges freshness on *its own* stream's last timestamp and clears *its
-              own* stream's flag; every state-changing select branch reaches the change detection.
-  C16.CHANGE  a notification is sent only for a status returned by the change detector, which
-              returns one only after storing it as the last status.
-  C16.BLOCK   BlockingStatus.block: not blocked -> min duration; still blocked -> zero, no state
-              write; expired -> min(2 * last, max); unblock clears; the tracker unblocks on every
-              success and blocks on failure only when the last status was not NOT_WORKING;
-              uncertain components are used only when no working one is available.
+              for the inverter) every path on which the validity predicate returns something that is
+              not False has tested that fact with the outcome "does not hold"; on every path of a
+              message handler the stream's flag is written, and written True only if every required
+              predicate was evaluated to True on the received message; WORKING/UNCERTAIN is returned
+              only on paths where both flags were found true.  The sets of operational states are a
+              frozen table; staleness is exactly `max_data_age < now - timestamp`.
+  C16.TIMER   on every path of a message handler the message timestamp is recorded and that stream's
+              timer reset; in the select loop every path of a timer branch decides freshness on *its
+              own* stream's last timestamp (and on no other stream's), a stale outcome calls that
+              stream's timer handler, after which that stream's flag is false on every path and the
+              other flag untouched; every path that calls a `_handle_status_*` afterwards evaluates
+              the change detection.
+  C16.CHANGE  a path sends iff the change detector's result was found not None, after the (single)
+              detection, and sends ComponentStatus(component_id=battery id, value=that result); the
+              detector calls `_get_current_status` once, and returns it exactly on the paths where it
+              differs from `_last_status`, after storing it (otherwise None, nothing stored).
+  C16.BLOCK   BlockingStatus.block: every path is one of not blocked -> duration := min_duration;
+              still blocked (now < blocked_until) -> zero returned, no state write; expired ->
+              duration := min(2 * last, max); blocked_until := now + the new duration (values compared
+              in polynomial normal form after strong update of written attributes); unblock clears on
+              every path; is_blocked is True exactly when blocked_until is set and in the future; the
+              tracker unblocks on every path with a success and blocks exactly on failure when the
+              last status was not NOT_WORKING; a blocked healthy battery is UNCERTAIN; uncertain
+              components are returned exactly when the working intersection is empty.
 """
 from __future__ import annotations
 
 import ast
-from typing import Any
+from typing import Any, Callable
 
 from ..engine.cfg import CFG
+from ..engine.normalize import positional
 from ..engine.report import AnalysisError, Run
-from ..engine.resolver import FuncInfo, Program, body_walk
-from ..engine.terms import Poly, TermEval
-from ..engine.util import canon, canon_total, find_calls, method_call, node_writes, nodes_with_call, u
+from ..engine.resolver import FuncInfo, Program
+from ._c16_util import (Atom, Exec, PathSum, State, Unsupported, eq_key, in_key, is_key, lt_key, parse_expr, poly,
+                        text, truthy_key, u)
 
 MOD = "microgrid._power_distributing._component_status._battery_status_tracker"
 TR = f"{MOD}:BatteryStatusTracker"
-BS = "microgrid._power_distributing._component_status._blocking_status:BlockingStatus"
-CS = "microgrid._power_distributing._component_status._component_status:ComponentPoolStatus"
+_BSMOD = "microgrid._power_distributing._component_status._blocking_status"
+BS = f"{_BSMOD}:BlockingStatus"
+CSMOD = "microgrid._power_distributing._component_status._component_status"
+CS = f"{CSMOD}:ComponentPoolStatus"
 
-# frozen instance table: predicate -> disqualifying facts (text of the condition as it appears in the
-# predicate, after resolving the single-assignment locals listed) — a vanished atom is exit 2
-ATOMS: dict[str, list[tuple[str, str]]] = {
-    "_is_capacity_present": [("NaN capacity", "math.isnan(msg.capacity)")],
-    "_no_critical_error": [("critical error", "critical_err is not None")],
-    "_is_inverter_state_correct": [("invalid inverter state",
-                                    "state not in BatteryStatusTracker._inverter_valid_state")],
+NW = "ComponentStatusEnum.NOT_WORKING"
+WORKING = "ComponentStatusEnum.WORKING"
+UNCERTAIN = "ComponentStatusEnum.UNCERTAIN"
+FLAG = "last_msg_correct"
+DETECT = "self._get_new_status_if_changed()"
+CURRENT = "self._get_current_status()"
+
+
+# ------------------------------------------------------------------------------ disqualifying facts
+# A fact is bound to code by *what the atomic condition computes* on the (canonically named) message
+# MSG, never by the name of a local: matcher(atom) -> the truth value of that atom under which the
+# disqualifying fact holds, or None when the atom is not a test of this fact.
+def _fact_nan(a: Atom) -> bool | None:
+    if a.kind == "truthy" and text(a.ops[0]) in ("math.isnan(MSG.capacity)", "isnan(MSG.capacity)"):
+        return True
+    return None
+
+
+def _is_critical_filter(gen: ast.AST) -> bool:
+    """`(<v> for <v> in MSG.errors if <v>.level == ErrorLevel.CRITICAL)` (any variable name)."""
+    if not isinstance(gen, (ast.GeneratorExp, ast.ListComp)) or len(gen.generators) != 1:
+        return False
+    g = gen.generators[0]
+    if not isinstance(g.target, ast.Name) or text(g.iter) != "MSG.errors" or len(g.ifs) != 1 or g.is_async:
+        return False
+    v = g.target.id
+    return text(gen.elt) == v and _is_critical_test(g.ifs[0], v)
+
+
+def _is_critical_test(c: ast.AST, v: str) -> bool:
+    if not (isinstance(c, ast.Compare) and len(c.ops) == 1 and isinstance(c.ops[0], (ast.Eq, ast.Is))):
+        return False
+    return {text(c.left), text(c.comparators[0])} == {f"{v}.level", "ErrorLevel.CRITICAL"}
+
+
+def _fact_critical(a: Atom) -> bool | None:
+    if a.kind == "is":  # next((e for e in MSG.errors if e.level == CRITICAL), None) is None
+        ops = list(a.ops)
+        none = [o for o in ops if isinstance(o, ast.Constant) and o.value is None]
+        other = [o for o in ops if o not in none]
+        if len(none) == 1 and len(other) == 1 and isinstance(other[0], ast.Call) and u(other[0].func) == "next" \
+                and len(other[0].args) == 2 and not other[0].keywords and text(other[0].args[1]) == "None" \
+                and _is_critical_filter(other[0].args[0]):
+            return False  # the fact holds when `... is None` is false
+    if a.kind == "truthy" and isinstance(a.ops[0], ast.Call) and u(a.ops[0].func) == "any" and len(a.ops[0].args) == 1:
+        gen = a.ops[0].args[0]  # any(e.level == CRITICAL for e in MSG.errors)
+        if isinstance(gen, (ast.GeneratorExp, ast.ListComp)) and len(gen.generators) == 1:
+            g = gen.generators[0]
+            if isinstance(g.target, ast.Name) and text(g.iter) == "MSG.errors" and not g.ifs \
+                    and _is_critical_test(gen.elt, g.target.id):
+                return True
+    return None
+
+
+def _fact_not_in(attr: str, table: str) -> Callable[[Atom], bool | None]:
+    owners = ("BatteryStatusTracker", "self", "type(self)", "self.__class__", "cls")
+
+    def match(a: Atom) -> bool | None:
+        if a.kind == "in" and text(a.ops[0]) == f"MSG.{attr}" and text(a.ops[1]) in {f"{o}.{table}" for o in owners}:
+            return False  # the fact holds when `state in valid` is false
+        return None
+    return match
+
+
+def _fact_stale(a: Atom) -> bool | None:
+    if a.kind == "truthy" and text(a.ops[0]) == "self._is_timestamp_outdated(MSG.timestamp)":
+        return True
+    if a.key == lt_key("self._max_data_age", "NOW - MSG.timestamp"):
+        return True
+    return None
+
+
+# frozen instance table: predicate -> disqualifying facts it must exclude — a vanished atom is exit 2
+FACTS: dict[str, list[tuple[str, Callable[[Atom], bool | None]]]] = {
+    "_is_capacity_present": [("NaN capacity", _fact_nan)],
+    "_no_critical_error": [("critical error", _fact_critical)],
+    "_is_inverter_state_correct": [("invalid inverter state", _fact_not_in("component_state", "_inverter_valid_state"))],
     "_is_battery_state_correct": [
-        ("invalid battery state", "state not in BatteryStatusTracker._battery_valid_state"),
-        ("invalid relay state", "relay_state not in BatteryStatusTracker._battery_valid_relay")],
-    "_is_message_reliable": [("stale message", "is_outdated")],
-}
-LOCAL_DEFS = {
-    "_no_critical_error": {"critical": "ErrorLevel.CRITICAL",
-                           "critical_err": "next((err for err in msg.errors if err.level == critical), None)"},
-    "_is_inverter_state_correct": {"state": "msg.component_state"},
-    "_is_battery_state_correct": {"state": "msg.component_state", "relay_state": "msg.relay_state"},
-    "_is_message_reliable": {"is_outdated": "self._is_timestamp_outdated(message.timestamp)"},
+        ("invalid battery state", _fact_not_in("component_state", "_battery_valid_state")),
+        ("invalid relay state", _fact_not_in("relay_state", "_battery_valid_relay"))],
+    "_is_message_reliable": [("stale message", _fact_stale)],
 }
 REQUIRED = {
     "_handle_status_battery": ("self._battery", {"_is_message_reliable", "_is_battery_state_correct",
@@ -66,68 +149,36 @@ VALID_SETS = {
 }
 
 
-def tri(e: ast.AST, true_texts: set[str]) -> bool | None:
-    """Three-valued evaluation: sub-expressions whose text is in `true_texts` are True, the rest unknown."""
-    t = u(e)
-    if t in true_texts:
-        return True
-    if isinstance(e, ast.Constant) and isinstance(e.value, bool):
-        return e.value
-    if isinstance(e, ast.UnaryOp) and isinstance(e.op, ast.Not):
-        v = tri(e.operand, true_texts)
-        return None if v is None else not v
-    if isinstance(e, ast.BoolOp):
-        vals = [tri(v, true_texts) for v in e.values]
-        if isinstance(e.op, ast.And):
-            if any(v is False for v in vals):
-                return False
-            return True if all(v is True for v in vals) else None
-        if any(v is True for v in vals):
-            return True
-        return False if all(v is False for v in vals) else None
-    return None
+# ------------------------------------------------------------------------------ path summaries
+def paths_of(prog: Program, fn: FuncInfo, params: list[str] | None = None, mode: str = "value") -> list[PathSum]:
+    """Every path through `fn` (see _c16_util); what cannot be interpreted fails closed."""
+    try:
+        ps = Exec(prog, fn, bool_attrs={FLAG}).run(params, mode)
+    except Unsupported as exc:
+        raise AnalysisError(f"{fn.qual}: cannot be interpreted path by path ({exc})") from exc
+    ps = [p for p in ps if p.exit != "raise"]
+    if not ps:
+        raise AnalysisError(f"{fn.qual}: no normal path")
+    return ps
 
 
-def may_return_true(cfg: CFG, true_texts: set[str]) -> list[tuple[int, str]] | None:
-    """A path to a `return` whose value is not definitely False, given the facts; None if none."""
-    start = (cfg.entry,)
-    seen = {cfg.entry}
-    prev: dict[int, tuple[int, str]] = {}
-    queue = [cfg.entry]
-    while queue:
-        n = queue.pop(0)
-        node = cfg.nodes[n]
-        if isinstance(node.ast, ast.Return):
-            v = node.ast.value
-            val = tri(v, true_texts) if v is not None else False
-            if val is not False:
-                out = [(n, "")]
-                cur = n
-                while cur in prev:
-                    p, lab = prev[cur]
-                    out[-1] = (out[-1][0], lab)
-                    out.append((p, ""))
-                    cur = p
-                return list(reversed(out))
-            continue
-        decided = None
-        if node.kind == "test" and node.ast is not None:
-            decided = tri(node.ast, true_texts)
-        for m, lab in cfg.succ[n]:
-            if lab.startswith("exc:"):
-                continue
-            if decided is True and lab == "false":
-                continue
-            if decided is False and lab == "true":
-                continue
-            if m not in seen:
-                seen.add(m)
-                prev[m] = (n, lab)
-                queue.append(m)
-    return None
+def ret_text(p: PathSum) -> str:
+    return "None" if p.value is None else text(p.value)
 
 
-def check_safe(run: Run, prog: Program) -> None:
+def falsy_ret(p: PathSum) -> bool:
+    return p.const() in (False, None)
+
+
+def first(items: list[Any]) -> Any:
+    return items[0] if items else None
+
+
+def wit(p: PathSum | None) -> list[str]:
+    return p.describe() if p is not None else []
+
+
+def check_safe(run: Run, prog: Program) -> None:  # noqa: C901
     cls = prog.cls(TR)
     # frozen sets of operational states
     for name, want in VALID_SETS.items():
@@ -136,287 +187,373 @@ def check_safe(run: Run, prog: Program) -> None:
         run.check(got == want, "C16.SAFE", cls.qual, f"{name} = {sorted(got) if got else got}",
                   f"the set of states counted as operational changed from the documented {sorted(want)} "
                   f"to {sorted(got) if got else got}", node=node or cls.node, file=cls.module.rel)
-    for pname, atoms in ATOMS.items():
+    # each predicate: returning a value that is not False requires every disqualifying fact of the
+    # predicate to have been tested on that path with the outcome "fact does not hold"
+    for pname, facts in FACTS.items():
         fn = prog.func(f"{TR}.{pname}")
         run.analysed(fn.qual)
-        msgp = fn.params[1]
-        cfg = CFG(fn.node, fn.file)
-        # the locals the atom texts rely on are still defined as frozen
-        for local, want in LOCAL_DEFS.get(pname, {}).items():
-            defs = [s for s in body_walk(fn.node) if isinstance(s, ast.Assign) and u(s.targets[0]) == local]
-            want_t = want.replace("msg.", f"{msgp}.").replace("message.", f"{msgp}.")
-            if len(defs) != 1 or u(defs[0].value) != want_t:
-                raise AnalysisError(f"{fn.qual}: local `{local}` is no longer `{want_t}` — the frozen atom "
-                                    "table of C16.SAFE must be re-confirmed")
-        for label, text in atoms:
-            text = text.replace("msg.", f"{msgp}.")
-            present = any(u(n) == text for n in ast.walk(fn.node))
-            if not present:
-                raise AnalysisError(f"{fn.qual}: disqualifying atom `{text}` ({label}) vanished")
-            wit = may_return_true(cfg, {text})
-            run.check(wit is None, "C16.SAFE", fn.qual, f"{label}: `{text}` -> False",
-                      f"with the disqualifying fact `{label}` true, `{pname}` can still return a value "
-                      "that is not False: the component is reported healthy on that path",
-                      node=fn.node, file=fn.file, path=cfg.describe_path(wit),
+        paths = paths_of(prog, fn, ["MSG"], mode="bool")
+        for label, match in facts:
+            def holds(p: PathSum, match: Callable[[Atom], bool | None] = match) -> bool | None:
+                """True: fact holds on p; False: excluded on p; None: not tested on p."""
+                got = [v == match(a) for a, v in p.atoms_where(lambda a: match(a) is not None)]
+                return None if not got else any(got)
+            if all(holds(p) is None for p in paths):
+                raise AnalysisError(f"{fn.qual}: the test of the disqualifying fact `{label}` vanished")
+            bad = first([p for p in paths if not falsy_ret(p) and holds(p) is not False])
+            run.check(bad is None, "C16.SAFE", fn.qual, f"{label} -> False",
+                      f"with the disqualifying fact `{label}` true (or untested), `{pname}` can still return a "
+                      "value that is not False: the component is reported healthy on that path",
+                      node=fn.node, file=fn.file, path=wit(bad),
                       instance=f"{fn.qual}: {label} => False on every path")
         # and the predicate can succeed at all (not constantly False)
-        rets = [n for n in body_walk(fn.node) if isinstance(n, ast.Return)]
-        run.check(any(tri(r.value, set()) is not False for r in rets if r.value is not None), "C16.SAFE", fn.qual,
+        run.check(any(not falsy_ret(p) for p in paths), "C16.SAFE", fn.qual,
                   "predicate can hold", "the predicate can never hold", node=fn.node, file=fn.file)
-    # staleness predicate
+    # staleness predicate: True exactly when max_data_age < now - timestamp
     so = prog.func(f"{TR}._is_timestamp_outdated")
     run.analysed(so.qual)
-    txt = u(so.node).replace(" ", "")
-    ok = "now=datetime.now(tz=timezone.utc)" in txt and f"diff=now-{so.params[1]}" in txt and "returndiff>self._max_data_age" in txt
+    paths = paths_of(prog, so, ["TS"], mode="bool")
+    k_old = lt_key("self._max_data_age", "NOW - TS")
+    ok = all(p.fact(k_old) is not None and p.const() is p.fact(k_old) for p in paths) and \
+        {p.fact(k_old) for p in paths} == {True, False}
     run.check(ok, "C16.SAFE", so.qual, "outdated == now - timestamp > max_data_age",
-              "staleness is not `now - message timestamp > max_data_age`", node=so.node, file=so.file)
-    # flags are the conjunction of all predicates of the stream
+              "staleness is not `now - message timestamp > max_data_age`", node=so.node, file=so.file,
+              path=wit(first([p for p in paths if p.fact(k_old) is None or p.const() is not p.fact(k_old)])))
+    # the flag written by a message handler is true only if every required predicate held on the message
     for hname, (stream, need) in REQUIRED.items():
         fn = prog.func(f"{TR}.{hname}")
         run.analysed(fn.qual)
-        msgp = fn.params[1]
-        assigns = [s for s in body_walk(fn.node) if isinstance(s, ast.Assign) and u(s.targets[0]) == f"{stream}.last_msg_correct"]
-        ok = len(assigns) == 1 and isinstance(assigns[0].value, ast.BoolOp) and isinstance(assigns[0].value.op, ast.And)
-        have = set()
-        if ok:
-            for v in assigns[0].value.values:  # type: ignore[union-attr]
-                if isinstance(v, ast.Call) and isinstance(v.func, ast.Attribute) and u(v.func.value) == "self" \
-                        and [u(a) for a in v.args] == [msgp]:
-                    have.add(v.func.attr)
-                else:
-                    ok = False
-        missing = need - have
-        run.check(ok and not missing, "C16.SAFE", fn.qual, f"{stream}.last_msg_correct = and(all predicates)",
+        paths = paths_of(prog, fn, ["MSG"])
+        missing: set[str] = set()
+        bad = None
+        for p in paths:
+            w = p.last_write(f"{stream}.{FLAG}")
+            if w is None:
+                bad = bad or p
+                missing.add("<flag not written>")
+                continue
+            if isinstance(w, ast.Constant) and w.value is False:
+                continue
+            lack = {q for q in need if p.fact(truthy_key(f"self.{q}(MSG)")) is not True}
+            if lack:
+                bad = bad or p
+                missing |= lack
+        can_hold = any(isinstance(p.last_write(f"{stream}.{FLAG}"), ast.Constant)
+                       and p.last_write(f"{stream}.{FLAG}").value is True for p in paths)  # type: ignore[union-attr]
+        run.check(bad is None and can_hold, "C16.SAFE", fn.qual, f"{stream}.last_msg_correct = and(all predicates)",
                   f"the health flag of {stream} is not the conjunction of all required checks on the "
-                  f"received message (missing: {sorted(missing)})", node=fn.node, file=fn.file)
-    # status decision
+                  f"received message (missing: {sorted(missing)})", node=fn.node, file=fn.file, path=wit(bad))
+    # status decision: anything but NOT_WORKING needs both flags
     gs = prog.func(f"{TR}._get_current_status")
     run.analysed(gs.qual)
-    cfg = CFG(gs.node, gs.file)
-    defs = [s for s in body_walk(gs.node) if isinstance(s, ast.Assign) and isinstance(s.targets[0], ast.Name)]
-    flag = None
-    for s in defs:
-        if canon(s.value) == ("and", frozenset({("truthy", "self._battery.last_msg_correct"),
-                                                ("truthy", "self._inverter.last_msg_correct")})):
-            flag = u(s.targets[0])
-    ok = flag is not None
-    wit = None
-    if ok:
-        tests = [t for t in cfg.nodes if t.kind == "test" and t.ast is not None and canon(t.ast) == ("not", ("truthy", flag))]
-        ok = len(tests) == 1
-        if ok:
-            t = tests[0]
-            t_true = [m for m, lab in cfg.succ[t.id] if lab == "true"]
-            ok = bool(t_true) and u(cfg.nodes[t_true[0]].ast) == "return ComponentStatusEnum.NOT_WORKING"
-            good_rets = [n.id for n in cfg.nodes if isinstance(n.ast, ast.Return)
-                         and u(n.ast.value) != "ComponentStatusEnum.NOT_WORKING"]
-            wit = cfg.path(cfg.entry, good_rets, avoid=[t.id])
-            ok = ok and wit is None and bool(good_rets)
-    run.check(ok, "C16.SAFE", gs.qual, "WORKING/UNCERTAIN only if battery flag and inverter flag",
+    paths = paths_of(prog, gs)
+    k_bat, k_inv = truthy_key(f"self._battery.{FLAG}"), truthy_key(f"self._inverter.{FLAG}")
+    good = [p for p in paths if ret_text(p) != NW]
+    bad = first([p for p in good if not (p.fact(k_bat) is True and p.fact(k_inv) is True)])
+    run.check(bad is None and bool(good), "C16.SAFE", gs.qual, "WORKING/UNCERTAIN only if battery flag and inverter flag",
               "a status other than NOT_WORKING can be returned although the battery's or the inverter's "
-              "last message was not proven healthy", node=gs.node, file=gs.file, path=cfg.describe_path(wit))
-    blk = [t for t in cfg.nodes if t.kind == "test" and "is_blocked()" in t.label]
-    ok = len(blk) == 1 and any(u(cfg.nodes[m].ast) == "return ComponentStatusEnum.UNCERTAIN"
-                               for m, lab in cfg.succ[blk[0].id] if lab == "true")
-    run.check(ok, "C16.BLOCK", gs.qual, "blocked -> UNCERTAIN",
-              "a healthy but blocked battery is not reported as uncertain", node=gs.node, file=gs.file)
+              "last message was not proven healthy", node=gs.node, file=gs.file, path=wit(bad))
+    unknown = first([p for p in paths if ret_text(p) not in (NW, WORKING, UNCERTAIN)])
+    if unknown is not None:
+        raise AnalysisError(f"{gs.qual}: returns `{ret_text(unknown)}`, not a ComponentStatusEnum member")
+    k_blk = truthy_key("self._blocking_status.is_blocked()")
+    k_was_nw = eq_key("self._last_status", NW)
+    blocked = [p for p in paths if p.fact(k_blk) is True]
+    bad = first([p for p in blocked if ret_text(p) != UNCERTAIN] +
+                [p for p in paths if ret_text(p) == WORKING and not (p.fact(k_was_nw) is True or p.fact(k_blk) is False)])
+    run.check(bool(blocked) and bad is None, "C16.BLOCK", gs.qual, "blocked -> UNCERTAIN",
+              "a healthy but blocked battery is not reported as uncertain", node=gs.node, file=gs.file, path=wit(bad))
+
+
+# ------------------------------------------------------------------------------ the select loop
+def _contains_select_loop(s: ast.AST) -> bool:
+    return any(isinstance(n, ast.AsyncFor) and isinstance(n.iter, ast.Call) and u(n.iter.func) == "select"
+               for n in ast.walk(s))
+
+
+def loop_paths(prog: Program, rn: FuncInfo) -> list[PathSum]:
+    """Paths through one iteration of the `async for selected in select(...)` body of `_run`: the
+    straight-line code leading to the loop is executed first (receiver / timer aliases), names
+    assigned inside the body start each iteration unknown, the loop variable is SELECTED."""
+    ex = Exec(prog, rn, bool_attrs={FLAG})
+    node = ex.prepared(rn)
+    names = [a.arg for a in node.args.args][1:]
+    st: State = ex.initial(dict(zip(names, ["STATUS_SENDER", "SET_POWER_RESULT_RECEIVER"])))
+    suite = node.body
+    try:
+        while True:
+            idx = [i for i, s in enumerate(suite) if _contains_select_loop(s)]
+            if len(idx) != 1:
+                raise AnalysisError(f"{rn.qual}: expected exactly one select loop")
+            pre = ex.run_suite(suite[:idx[0]], st)
+            if len(pre) != 1 or pre[0].exit != "fall":
+                raise AnalysisError(f"{rn.qual}: the code leading to the select loop branches")
+            st = pre[0].state
+            s = suite[idx[0]]
+            if isinstance(s, ast.AsyncFor) and isinstance(s.iter, ast.Call) and u(s.iter.func) == "select":
+                break
+            if isinstance(s, (ast.While, ast.Try, ast.With, ast.AsyncWith)) and not _contains_select_loop(
+                    ast.Module(body=getattr(s, "orelse", []) + getattr(s, "finalbody", []), type_ignores=[])):
+                suite = s.body
+                continue
+            raise AnalysisError(f"{rn.qual}: select loop inside an unexpected `{type(s).__name__}`")
+        if not isinstance(s.target, ast.Name):
+            raise AnalysisError(f"{rn.qual}: select loop variable is not a plain name")
+        for n in ast.walk(ast.Module(body=s.body, type_ignores=[])):
+            if isinstance(n, ast.Name) and isinstance(n.ctx, ast.Store):
+                st.locals[n.id] = ast.Name(id=f"PREVIOUS<{n.id}>", ctx=ast.Load())
+        st.locals[s.target.id] = ast.Name(id="SELECTED", ctx=ast.Load())
+        st.events.clear()
+        paths = ex.run_suite(s.body, st)
+    except Unsupported as exc:
+        raise AnalysisError(f"{rn.qual}: cannot be interpreted path by path ({exc})") from exc
+    return [p for p in paths if p.exit != "raise"]
+
+
+def _is_handler_call(c: ast.Call) -> bool:
+    return isinstance(c.func, ast.Attribute) and u(c.func.value) == "self" and c.func.attr.startswith("_handle_status_")
 
 
 def check_timer(run: Run, prog: Program) -> None:
+    # message handlers: every path records the message timestamp and restarts the stream's timer
     for hname, (stream, _need) in REQUIRED.items():
         fn = prog.func(f"{TR}.{hname}")
-        txt = u(fn.node).replace(" ", "")
-        ok = f"{stream}.last_msg_timestamp={fn.params[1]}.timestamp" in txt and f"{stream}.data_recv_timer.reset()" in txt
-        run.check(ok, "C16.TIMER", fn.qual, "record the message timestamp and reset the stream's timer",
+        paths = paths_of(prog, fn, ["MSG"])
+        bad = first([p for p in paths if not (
+            p.last_write(f"{stream}.last_msg_timestamp") is not None
+            and text(p.last_write(f"{stream}.last_msg_timestamp")) == "MSG.timestamp"
+            and p.call_texts(f"{stream}.data_recv_timer.reset()"))])
+        run.check(bad is None, "C16.TIMER", fn.qual, "record the message timestamp and reset the stream's timer",
                   f"a message from {stream} does not record its timestamp / restart the data-age timer",
-                  node=fn.node, file=fn.file)
+                  node=fn.node, file=fn.file, path=wit(bad))
+    # timer handlers: afterwards the stream's own flag is false on every path, the other flag untouched
     for hname, stream in (("_handle_status_battery_timer", "self._battery"), ("_handle_status_inverter_timer", "self._inverter")):
         fn = prog.func(f"{TR}.{hname}")
         run.analysed(fn.qual)
-        clears = [s for s in body_walk(fn.node) if isinstance(s, ast.Assign) and u(s.targets[0]) == f"{stream}.last_msg_correct"
-                  and u(s.value) == "False"]
-        others = [s for s in body_walk(fn.node) if isinstance(s, ast.Assign) and u(s.targets[0]).endswith(".last_msg_correct")
-                  and not u(s.targets[0]).startswith(stream)]
-        run.check(len(clears) == 1 and not others, "C16.TIMER", fn.qual, f"{stream}.last_msg_correct = False",
-                  f"the data-age timer of {stream} does not clear that stream's health flag", node=fn.node, file=fn.file)
+        paths = paths_of(prog, fn)
+        flag = f"{stream}.{FLAG}"
+
+        def cleared(p: PathSum, flag: str = flag) -> bool:
+            w = p.last_write(flag)
+            if w is not None:
+                return isinstance(w, ast.Constant) and w.value is False
+            return p.fact(truthy_key(flag)) is False
+        others = [p for p in paths if p.writes_where(lambda t, flag=flag: t.endswith("." + FLAG) and t != flag)]
+        bad = first([p for p in paths if not cleared(p)] + others)
+        clears = any(p.last_write(flag) is not None for p in paths)
+        run.check(bad is None and clears, "C16.TIMER", fn.qual, f"{stream}.last_msg_correct = False",
+                  f"the data-age timer of {stream} does not clear that stream's health flag", node=fn.node, file=fn.file,
+                  path=wit(bad))
     rn = prog.func(f"{TR}._run")
     run.analysed(rn.qual)
-    cfg = CFG(rn.node, rn.file)
-    alias = {u(s.targets[0]): u(s.value) for s in body_walk(rn.node) if isinstance(s, ast.Assign) and isinstance(s.targets[0], ast.Name)}
+    paths = loop_paths(prog, rn)
     n_branch = 0
-    for t in cfg.nodes:
-        if t.kind != "test" or t.ast is None or not isinstance(t.ast, ast.Call) or u(t.ast.func) != "selected_from":
-            continue
-        src = u(t.ast.args[1])
-        origin = alias.get(src, src)
-        if not origin.endswith(".data_recv_timer"):
+    for stream in ("self._battery", "self._inverter"):
+        k_sel = truthy_key(f"selected_from(SELECTED, {stream}.data_recv_timer)")
+        k_fresh = lt_key(f"NOW - {stream}.last_msg_timestamp", "self._max_data_age")
+        side = [p for p in paths if p.fact(k_sel) is True]
+        if not side:
             continue
         n_branch += 1
-        stream = origin[: -len(".data_recv_timer")]
-        side = cfg.reachable([m for m, lab in cfg.succ[t.id] if lab == "true"],
-                             avoid=[x.id for x in cfg.nodes if x.kind == "for"])
-        fresh = [x for x in side if cfg.nodes[x].kind == "test" and "last_msg_timestamp" in cfg.nodes[x].label
-                 and x != t.id and cfg.path(t.id, [x], edge_ok=lambda a, b, lab, tid=t.id: not (a == tid and lab == "false")) is not None]
-        fresh = [x for x in fresh if not any(
-            cfg.nodes[y].kind == "test" and isinstance(cfg.nodes[y].ast, ast.Call) and y != t.id
-            and cfg.path(y, [x], edge_ok=lambda a, b, lab, yy=y: not (a == yy and lab == "false")) is not None
-            and y in side for y in side if u(getattr(cfg.nodes[y].ast, "func", ast.Name(id=""))) == "selected_from")]
-        ok = len(fresh) == 1
+        want_handler = f"self._handle_status_{stream.split('._')[-1]}_timer()"
         detail = "no freshness test on the timer branch"
-        if ok:
-            f = cfg.nodes[fresh[0]]
-            want = canon_total(ast.parse(
-                f"(datetime.now(tz=timezone.utc) - {stream}.last_msg_timestamp) < self._max_data_age", mode="eval").body)
-            ok = canon_total(f.ast) == want  # type: ignore[arg-type]
-            detail = (f"the freshness test of {stream}'s timer reads `{f.label}`: it must compare the age of "
+        bad = first([p for p in side if p.fact(k_fresh) is None])
+        foreign = first([p for p in side if p.atoms_where(
+            lambda a, k=k_fresh: a.key != k and "last_msg_timestamp" in " ".join(text(o) for o in a.ops))])
+        if foreign is not None:
+            a = foreign.atoms_where(lambda a, k=k_fresh: a.key != k and "last_msg_timestamp" in " ".join(text(o) for o in a.ops))[0][0]
+            bad = foreign
+            detail = (f"the freshness test of {stream}'s timer reads `{a.show()}`: it must compare the age of "
                       f"*{stream}'s* last message with max_data_age (otherwise a silent {stream.split('_')[-1]} "
                       "is never marked stale while the other stream keeps sending)")
-            if ok:
-                stale_side = cfg.reachable([m for m, lab in cfg.succ[f.id] if lab == "false"],
-                                           avoid=[x.id for x in cfg.nodes if x.kind == "for"])
-                want_handler = f"_handle_status_{stream.split('._')[-1]}_timer"
-                calls = [x for x in stale_side if cfg.nodes[x].kind == "stmt" and u(cfg.nodes[x].ast).replace(" ", "") == f"self.{want_handler}()"]
-                ok = bool(calls)
-                detail = f"a stale {stream} does not lead to {want_handler}()"
-        run.check(ok, "C16.TIMER", rn.qual, f"timer branch of {stream}", detail, node=t.ast, file=rn.file)
+        if bad is None:
+            bad = first([p for p in side if p.fact(k_fresh) is False and not p.call_texts(want_handler)])
+            detail = f"a stale {stream} does not lead to {want_handler[5:]}"
+        run.check(bad is None, "C16.TIMER", rn.qual, f"timer branch of {stream}", detail, node=rn.node, file=rn.file,
+                  path=wit(bad))
     if n_branch != 2:
         raise AnalysisError(f"{rn.qual}: expected two data-timer branches, found {n_branch}")
     # every state-changing branch reaches the change detection
-    det = nodes_with_call(cfg, lambda c: method_call(c, "self", "_get_new_status_if_changed"))
-    loops = [h for h in cfg.nodes if h.kind == "for"]
-    normal = lambda a, b, lab: not lab.startswith("exc:")  # noqa: E731
-    for x in nodes_with_call(cfg, lambda c: isinstance(c.func, ast.Attribute) and c.func.attr.startswith("_handle_status_")):
-        wit = cfg.path(x, [h.id for h in loops], avoid=det, edge_ok=normal, include_src=False)
-        run.check(bool(det) and wit is None, "C16.TIMER", rn.qual, cfg.nodes[x].ast,
+    handlers = sorted({t for p in paths for _i, c in p.calls(_is_handler_call) for t in [text(c)]})
+    if not handlers:
+        raise AnalysisError(f"{rn.qual}: no `_handle_status_*` call in the select loop")
+    for h in handlers:
+        bad = first([p for p in paths if p.call_texts(h)
+                     and not any(j > p.call_texts(h)[-1] for j in p.call_texts(DETECT))])
+        run.check(bad is None, "C16.TIMER", rn.qual, h,
                   "a branch that may change the health flags returns to the select loop without "
-                  "re-evaluating the status", node=cfg.nodes[x].ast, file=rn.file, path=cfg.describe_path(wit))
+                  "re-evaluating the status", node=rn.node, file=rn.file, path=wit(bad))
     # the crash handler keeps the tracker alive
+    cfg = CFG(rn.node, rn.file)
     run.check(any(n.kind == "handler" and "Exception" in n.label for n in cfg.nodes) and any(n.kind == "while" for n in cfg.nodes),
               "C16.TIMER", rn.qual, "select loop restarted after an unexpected error",
               "an unexpected error ends status tracking", node=rn.node, file=rn.file)
 
 
+def _is_status_send(c: ast.Call) -> bool:
+    return isinstance(c.func, ast.Attribute) and c.func.attr == "send" and text(c.func.value) in (
+        "STATUS_SENDER", "self._status_sender")
+
+
 def check_change(run: Run, prog: Program) -> None:
     rn = prog.func(f"{TR}._run")
-    cfg = CFG(rn.node, rn.file)
-    sends = nodes_with_call(cfg, lambda c: method_call(c, "status_sender", "send"))
-    if len(sends) != 1:
-        raise AnalysisError(f"{rn.qual}: expected one status send")
-    tests = [t for t in cfg.nodes if t.kind == "test" and t.ast is not None and canon(t.ast) == ("isnot", frozenset({"new_status", "None"}))]
-    ok = len(tests) == 1 and [m for m, lab in cfg.succ[tests[0].id] if lab == "true"] == sends
-    run.check(ok, "C16.CHANGE", rn.qual, "send iff new_status is not None",
-              "a notification can be sent although the status did not change", node=rn.node, file=rn.file)
-    c = find_calls(cfg.nodes[sends[0]].ast, lambda c: method_call(c, "status_sender", "send"))[0]  # type: ignore[arg-type]
-    ok = u(c.args[0]).replace(" ", "") == "ComponentStatus(self.battery_id,new_status)"
-    defs = [s for s in body_walk(rn.node) if isinstance(s, ast.Assign) and u(s.targets[0]) == "new_status"]
-    ok = ok and {u(s.value) for s in defs} == {"None", "self._get_new_status_if_changed()"}
-    run.check(ok, "C16.CHANGE", rn.qual, "sends ComponentStatus(battery_id, <detected change>)",
-              "the notification does not carry the status found by the change detection", node=rn.node, file=rn.file)
+    paths = loop_paths(prog, rn)
+    if not any(p.calls(_is_status_send) for p in paths):
+        raise AnalysisError(f"{rn.qual}: expected a status send")
+    k_none = is_key(DETECT, "None")
+
+    def send_ok(p: PathSum) -> bool:
+        sends = p.calls(_is_status_send)
+        if not sends:
+            return p.fact(k_none) is not False  # a detected change must be sent
+        det = p.call_texts(DETECT)
+        return p.fact(k_none) is False and len(det) == 1 and all(i > det[0] for i, _c in sends)
+    bad = first([p for p in paths if not send_ok(p)])
+    run.check(bad is None, "C16.CHANGE", rn.qual, "send iff new_status is not None",
+              "a notification can be sent although the status did not change", node=rn.node, file=rn.file, path=wit(bad))
+    fields = [s.target.id for s in prog.cls(f"{CSMOD}:ComponentStatus").node.body
+              if isinstance(s, ast.AnnAssign) and isinstance(s.target, ast.Name)]
+    if fields[:2] != ["component_id", "value"]:
+        raise AnalysisError(f"ComponentStatus fields changed: {fields}")
+
+    def carries(c: ast.Call) -> bool:
+        if len(c.args) != 1 or c.keywords or not isinstance(c.args[0], ast.Call) or u(c.args[0].func) != "ComponentStatus":
+            return False
+        got = {k: text(v) for k, v in positional(c.args[0], fields).items()}
+        return set(got) == {"component_id", "value"} and got["value"] == DETECT and got["component_id"] in (
+            "self.battery_id", "self._battery.component_id")
+    bad = first([p for p in paths if not all(carries(c) for _i, c in p.calls(_is_status_send))])
+    run.check(bad is None, "C16.CHANGE", rn.qual, "sends ComponentStatus(battery_id, <detected change>)",
+              "the notification does not carry the status found by the change detection", node=rn.node, file=rn.file,
+              path=wit(bad))
     gn = prog.func(f"{TR}._get_new_status_if_changed")
     run.analysed(gn.qual)
-    cfg = CFG(gn.node, gn.file)
-    tests = [t for t in cfg.nodes if t.kind == "test" and t.ast is not None and canon(t.ast) == ("!=", frozenset({"self._last_status", "current_status"}))]
-    ok = len(tests) == 1
-    if ok:
-        t = tests[0]
-        rets = [n.id for n in cfg.nodes if isinstance(n.ast, ast.Return) and u(n.ast.value) == "current_status"]
-        stores = [n.id for n in cfg.nodes if isinstance(n.ast, ast.Assign) and u(n.ast.targets[0]) == "self._last_status"
-                  and u(n.ast.value) == "current_status"]
-        ok = bool(rets) and bool(stores) and cfg.path(cfg.entry, rets, avoid=[t.id]) is None and \
-            cfg.path(t.id, rets, avoid=stores) is None and \
-            not any(r in cfg.reachable([m for m, lab in cfg.succ[t.id] if lab == "false"]) for r in rets)
-        cur = [s for s in body_walk(gn.node) if isinstance(s, ast.Assign) and u(s.targets[0]) == "current_status"]
-        ok = ok and len(cur) == 1 and u(cur[0].value) == "self._get_current_status()"
-    run.check(ok, "C16.CHANGE", gn.qual, "changed -> store and return; unchanged -> None",
+    paths = paths_of(prog, gn)
+    k_same = eq_key("self._last_status", CURRENT)
+
+    def detect_ok(p: PathSum) -> bool:
+        stores = p.writes("self._last_status")
+        if len(p.call_texts(CURRENT)) != 1 or p.fact(k_same) is None:
+            return False
+        if p.fact(k_same):  # unchanged: nothing stored, None returned
+            return not stores and p.const() is None
+        cond_at = [i for i, e in enumerate(p.events) if e[0] == "cond" and e[1] == k_same][0]
+        return bool(stores) and all(i > cond_at and text(v) == CURRENT for i, v in stores) and ret_text(p) == CURRENT
+    bad = first([p for p in paths if not detect_ok(p)])
+    run.check(bad is None and {p.fact(k_same) for p in paths} == {True, False}, "C16.CHANGE", gn.qual,
+              "changed -> store and return; unchanged -> None",
               "the change detector does not return a status exactly when it differs from the stored one "
-              "(after storing it)", node=gn.node, file=gn.file)
+              "(after storing it)", node=gn.node, file=gn.file, path=wit(bad))
 
 
-def check_block(run: Run, prog: Program) -> None:
+def _is_zero_duration(e: ast.AST | None) -> bool:
+    if e is None:
+        return False
+    if poly(e).is_zero() or text(e) == "self._timedelta_zero":
+        return True
+    return isinstance(e, ast.Call) and u(e.func) in ("timedelta", "datetime.timedelta") and all(
+        isinstance(a, ast.Constant) and a.value == 0 for a in list(e.args) + [k.value for k in e.keywords])
+
+
+def check_block(run: Run, prog: Program) -> None:  # noqa: C901
     fn = prog.func(f"{BS}.block")
     run.analysed(fn.qual)
-    cfg = CFG(fn.node, fn.file)
-    te = TermEval()
-    t_none = [t for t in cfg.nodes if t.kind == "test" and t.ast is not None and canon(t.ast) == ("is", frozenset({"self.blocked_until", "None"}))]
-    t_still = [t for t in cfg.nodes if t.kind == "test" and t.ast is not None and canon_total(t.ast) == ("<", "now", "self.blocked_until")]
-    ok = len(t_none) == 1 and len(t_still) == 1
+    paths = paths_of(prog, fn)
+    k_none = is_key("self.blocked_until", "None")
+    k_still = lt_key("NOW", "self.blocked_until")
+    groups: dict[str, list[PathSum]] = {"fresh": [], "still": [], "expired": [], "?": []}
+    for p in paths:
+        if p.fact(k_none) is True:
+            groups["fresh"].append(p)
+        elif p.fact(k_none) is False and p.fact(k_still) is not None:
+            groups["still" if p.fact(k_still) else "expired"].append(p)
+        else:
+            groups["?"].append(p)
+    ok = not groups["?"] and all(groups[g] for g in ("fresh", "still", "expired"))
     run.check(ok, "C16.BLOCK", fn.qual, "three cases: not blocked / still blocked / expired",
-              "block() does not distinguish not-blocked, still-blocked and expired", node=fn.node, file=fn.file)
+              "block() does not distinguish not-blocked, still-blocked and expired", node=fn.node, file=fn.file,
+              path=wit(first(groups["?"])))
     if not ok:
         return
+    dur, until = "self.last_blocking_duration", "self.blocked_until"
 
-    def branch(test, label):
-        return cfg.reachable([m for m, lab in cfg.succ[test.id] if lab == label],
-                             avoid=[t.id for t in t_none + t_still if t.id != test.id])
-
-    def writes(region, attr):
-        return [cfg.nodes[x].ast for x in region if isinstance(cfg.nodes[x].ast, ast.Assign)
-                and u(cfg.nodes[x].ast.targets[0]) == f"self.{attr}"]
-
-    fresh = branch(t_none[0], "true")
-    w = writes(fresh, "last_blocking_duration")
-    ok = len(w) == 1 and u(w[0].value) == "self.min_duration"
-    run.check(ok, "C16.BLOCK", fn.qual, "not blocked -> min_duration",
+    def dur_is(p: PathSum, want: str) -> bool:
+        w = p.last_write(dur)
+        return w is not None and poly(w) == poly(parse_expr(want))
+    bad = first([p for p in groups["fresh"] if not dur_is(p, "self.min_duration")])
+    run.check(bad is None, "C16.BLOCK", fn.qual, "not blocked -> min_duration",
               "a first failure (or the first after a success) does not block for the minimum duration: "
-              "the back-off is not reset by unblock()", node=fn.node, file=fn.file)
-    still = branch(t_still[0], "true")
-    ok = not writes(still, "last_blocking_duration") and not writes(still, "blocked_until") and any(
-        isinstance(cfg.nodes[x].ast, ast.Return) and te.ev(cfg.nodes[x].ast.value) in (Poly(), Poly.atom("self._timedelta_zero"))
-        for x in still)
-    run.check(ok, "C16.BLOCK", fn.qual, "still blocked -> zero, no state change",
-              "a failure while still blocked extends or changes the block", node=fn.node, file=fn.file)
-    expired = branch(t_still[0], "false")
-    w = writes(expired, "last_blocking_duration")
-    ok = len(w) == 1 and isinstance(w[0].value, ast.Call) and u(w[0].value.func) == "min" and len(w[0].value.args) == 2
-    if ok:
-        polys = [te.ev(a) for a in w[0].value.args]
-        ok = Poly.atom("self.last_blocking_duration").scale(2) in polys and Poly.atom("self.max_duration") in polys
-    run.check(ok, "C16.BLOCK", fn.qual, "expired -> min(2 * last, max_duration)",
-              "consecutive failures do not double the blocking period up to the maximum", node=fn.node, file=fn.file)
-    for region, name in ((fresh, "not blocked"), (expired, "expired")):
-        w = writes(region, "blocked_until")
-        ok = len(w) == 1 and te.ev(w[0].value) == Poly.atom("now") + Poly.atom("self.last_blocking_duration")
-        run.check(ok, "C16.BLOCK", fn.qual, f"{name}: blocked_until = now + duration",
-                  "the block does not end after the computed duration", node=fn.node, file=fn.file)
+              "the back-off is not reset by unblock()", node=fn.node, file=fn.file, path=wit(bad))
+    bad = first([p for p in groups["still"] if p.writes(dur) or p.writes(until) or not _is_zero_duration(p.value)])
+    run.check(bad is None, "C16.BLOCK", fn.qual, "still blocked -> zero, no state change",
+              "a failure while still blocked extends or changes the block", node=fn.node, file=fn.file, path=wit(bad))
+    bad = first([p for p in groups["expired"] if not dur_is(p, "min(2 * self.last_blocking_duration, self.max_duration)")])
+    run.check(bad is None, "C16.BLOCK", fn.qual, "expired -> min(2 * last, max_duration)",
+              "consecutive failures do not double the blocking period up to the maximum", node=fn.node, file=fn.file,
+              path=wit(bad))
+    for g, name in (("fresh", "not blocked"), ("expired", "expired")):
+        bad = first([p for p in groups[g] if p.last_write(until) is None or p.last_write(dur) is None
+                     or poly(p.last_write(until)) != poly(parse_expr("NOW")) + poly(p.last_write(dur))])  # type: ignore[arg-type]
+        run.check(bad is None, "C16.BLOCK", fn.qual, f"{name}: blocked_until = now + duration",
+                  "the block does not end after the computed duration", node=fn.node, file=fn.file, path=wit(bad))
     ub = prog.func(f"{BS}.unblock")
-    run.check(u(ub.node.body[-1]) == "self.blocked_until = None", "C16.BLOCK", ub.qual, "unblock clears blocked_until",
-              "unblock() does not clear the block", node=ub.node, file=ub.file)
+    paths = paths_of(prog, ub)
+    bad = first([p for p in paths if not (isinstance(p.last_write(until), ast.Constant) and p.last_write(until).value is None)])  # type: ignore[union-attr]
+    run.check(bad is None, "C16.BLOCK", ub.qual, "unblock clears blocked_until",
+              "unblock() does not clear the block", node=ub.node, file=ub.file, path=wit(bad))
     ib = prog.func(f"{BS}.is_blocked")
-    txt = u(ib.node).replace(" ", "").replace("\n", "")
-    ok = "ifself.blocked_untilisNone:returnFalse" in txt and "returnself.blocked_until>datetime.now(tz=timezone.utc)" in txt
-    run.check(ok, "C16.BLOCK", ib.qual, "blocked iff blocked_until in the future", "is_blocked is not "
-              "`blocked_until is set and in the future`", node=ib.node, file=ib.file)
+    paths = paths_of(prog, ib, mode="bool")
+
+    def blocked_ok(p: PathSum) -> bool:
+        if p.writes_where(lambda t: True):
+            return False
+        if p.fact(k_none) is True:
+            return p.const() is False
+        return p.fact(k_none) is False and p.fact(k_still) is not None and p.const() is p.fact(k_still)
+    bad = first([p for p in paths if not blocked_ok(p)])
+    run.check(bad is None and {p.const() for p in paths} == {True, False}, "C16.BLOCK", ib.qual,
+              "blocked iff blocked_until in the future", "is_blocked is not "
+              "`blocked_until is set and in the future`", node=ib.node, file=ib.file, path=wit(bad))
     # tracker: unblock on every success, block on failure unless NOT_WORKING
     hr = prog.func(f"{TR}._handle_status_set_power_result")
     run.analysed(hr.qual)
-    cfg = CFG(hr.node, hr.file)
-    res = hr.params[1]
-    succ_t = [t for t in cfg.nodes if t.kind == "test" and t.ast is not None and canon(t.ast) == ("in", "self.battery_id", f"{res}.succeeded")]
-    ok = len(succ_t) == 1
-    if ok:
-        t_true = [m for m, lab in cfg.succ[succ_t[0].id] if lab == "true"]
-        ok = bool(t_true) and u(cfg.nodes[t_true[0]].ast).replace(" ", "") == "self._blocking_status.unblock()"
-    run.check(ok, "C16.BLOCK", hr.qual, "succeeded -> unblock() unconditionally",
+    paths = paths_of(prog, hr, ["RESULT"])
+    k_succ = in_key("self.battery_id", "RESULT.succeeded")
+    k_fail = in_key("self.battery_id", "RESULT.failed")
+    k_nw = eq_key("self._last_status", NW)
+    succ = [p for p in paths if p.fact(k_succ) is True]
+    bad = first([p for p in succ if not p.call_texts("self._blocking_status.unblock()")])
+    run.check(bool(succ) and bad is None, "C16.BLOCK", hr.qual, "succeeded -> unblock() unconditionally",
               "a successful power command does not always reset the back-off (e.g. only when the status "
               "is UNCERTAIN): after the block expired a later failure doubles instead of restarting at "
-              "the minimum", node=hr.node, file=hr.file)
-    fail_t = [t for t in cfg.nodes if t.kind == "test" and t.ast is not None and canon(t.ast) == (
-        "and", frozenset({("in", "self.battery_id", f"{res}.failed"),
-                          ("!=", frozenset({"self._last_status", "ComponentStatusEnum.NOT_WORKING"}))}))]
-    blocks = nodes_with_call(cfg, lambda c: method_call(c, "self._blocking_status", "block"))
-    ok = len(fail_t) == 1 and len(blocks) == 1 and [m for m, lab in cfg.succ[fail_t[0].id] if lab == "true"] == blocks \
-        and cfg.path(cfg.entry, blocks, avoid=[fail_t[0].id]) is None
-    run.check(ok, "C16.BLOCK", hr.qual, "failed and not NOT_WORKING -> block()",
+              "the minimum", node=hr.node, file=hr.file, path=wit(bad))
+    blocks = [p for p in paths if p.call_texts("self._blocking_status.block()")]
+    bad = first([p for p in blocks if not (p.fact(k_fail) is True and p.fact(k_nw) is False)
+                 or len(p.call_texts("self._blocking_status.block()")) != 1] +
+                [p for p in paths if p.fact(k_fail) is True and p.fact(k_nw) is False and p.fact(k_succ) is not True
+                 and p not in blocks])
+    run.check(bool(blocks) and bad is None, "C16.BLOCK", hr.qual, "failed and not NOT_WORKING -> block()",
               "a failed power command does not block a (working/uncertain) battery, or blocks one that is "
-              "not working", node=hr.node, file=hr.file)
+              "not working", node=hr.node, file=hr.file, path=wit(bad))
     gw = prog.func(f"{CS}.get_working_components")
     run.analysed(gw.qual)
-    txt = u(gw.node).replace(" ", "").replace("\n", "")
-    p = gw.params[1]
-    ok = f"working=self.working.intersection({p})" in txt and "iflen(working)>0:returnworking" in txt and \
-        f"returnself.uncertain.intersection({p})" in txt
-    run.check(ok, "C16.BLOCK", gw.qual, "uncertain only when no working component",
-              "uncertain components are used although working ones are available (or never)", node=gw.node, file=gw.file)
+    paths = paths_of(prog, gw, ["COMPONENTS"])
+    w_txt, u_txt = "self.working.intersection(COMPONENTS)", "self.uncertain.intersection(COMPONENTS)"
+
+    def nonempty(p: PathSum) -> bool | None:
+        """Whether the working subset is known to be non-empty on p (the accepted emptiness idioms)."""
+        for key, pol in ((truthy_key(w_txt), True), (truthy_key(f"len({w_txt})"), True),
+                         (lt_key("0", f"len({w_txt})"), True), (lt_key(f"len({w_txt})", "1"), False),
+                         (eq_key(f"len({w_txt})", "0"), False)):
+            if p.fact(key) is not None:
+                return p.fact(key) == pol
+        return None
+    bad = first([p for p in paths if not ((ret_text(p) == w_txt and nonempty(p) is True)
+                                          or (ret_text(p) == u_txt and nonempty(p) is False))])
+    run.check(bad is None and {nonempty(p) for p in paths} == {True, False}, "C16.BLOCK", gw.qual,
+              "uncertain only when no working component",
+              "uncertain components are used although working ones are available (or never)", node=gw.node, file=gw.file,
+              path=wit(bad))
 
 
 CONTROLS = [
@@ -428,13 +565,27 @@ CONTROLS = [
      "        if not is_msg_correct:\n            return ComponentStatusEnum.NOT_WORKING\n        if self._last_status == ComponentStatusEnum.NOT_WORKING:",
      "        if self._last_status == ComponentStatusEnum.NOT_WORKING and self._battery.last_msg_correct:\n            return ComponentStatusEnum.WORKING\n        if not is_msg_correct:\n            return ComponentStatusEnum.NOT_WORKING\n        if self._last_status == ComponentStatusEnum.NOT_WORKING:",
      "C16.SAFE"),
-    ("back-off triples", "microgrid._power_distributing._component_status._blocking_status",
+    ("back-off triples", _BSMOD,
      "2 * self.last_blocking_duration", "3 * self.last_blocking_duration", "C16.BLOCK"),
     ("sending unconditionally", MOD, "                    if new_status is not None:\n", "                    if True:\n", "C16.CHANGE"),
     ("stale accepted unless WORKING", MOD,
      "        return not is_outdated\n", "            return False\n        return True\n", "C16.SAFE"),
     ("inverter timer looks at the battery timestamp", MOD,
      "                            - self._inverter.last_msg_timestamp\n", "                            - self._battery.last_msg_timestamp\n", "C16.TIMER"),
+    ("inverter data does not restart its timer", MOD,
+     "        self._inverter.data_recv_timer.reset()\n", "        pass\n", "C16.TIMER"),
+    ("inverter timer clears the battery flag", MOD,
+     "            self._inverter.last_msg_correct = False\n", "            self._battery.last_msg_correct = False\n", "C16.TIMER"),
+    ("success does not unblock", MOD,
+     "            self._blocking_status.unblock()\n\n        elif", "            pass\n\n        elif", "C16.BLOCK"),
+    ("is_blocked inverted", _BSMOD,
+     "return self.blocked_until > datetime.now(tz=timezone.utc)", "return self.blocked_until < datetime.now(tz=timezone.utc)", "C16.BLOCK"),
+    ("uncertain used although one component works", CSMOD,
+     "if len(working) > 0:", "if len(working) > 1:", "C16.BLOCK"),
+    ("invalid relay state accepted", MOD,
+     "not in BatteryStatusTracker._battery_valid_relay:", "in BatteryStatusTracker._battery_valid_relay:", "C16.SAFE"),
+    ("inverter state check dropped from the conjunction", MOD,
+     "            and self._is_inverter_state_correct(", "            and self._is_message_reliable(", "C16.SAFE"),
 ]
 
 
@@ -460,12 +611,18 @@ def check(run: Run, prog: Program, tier: str) -> str:
     run.floor("C16.BLOCK", 10)
     from ..engine.controls import run_controls
 
-    run_controls(run, CONTROLS, run_rules, tier)
-    run.assume("the frozen atom table in sa/props/c16.py binds each disqualifying fact to the condition "
-               "testing it; the operational-state sets are the documented ones")
+    run_controls(run, CONTROLS, run_rules, tier, base_prog=prog)
+    run.assume("the frozen fact table in sa/props/c16.py binds each disqualifying fact to the atomic condition "
+               "that tests it (matched on what it computes on the message, not on local names); the "
+               "operational-state sets are the documented ones")
+    run.assume("operands of <, <=, >, >= in the anchored functions are totally ordered (datetimes, timedeltas, "
+               "lengths), so `not a <= b` is `b < a`; all reads of the utc wall clock on one path are one atom NOW; "
+               "an attribute not written on the path denotes the same value at every read")
     run.undecided("races between the wall clock and the timers (strict `<` at exactly max_data_age); "
                   "message delivery timing")
-    return ("Three-valued partial evaluation of the validity predicates on their CFGs (one disqualifying "
-            "fact true, everything else unknown), conjunction/guard-shape rules on the health flags and "
-            "the status decision, sibling rules on the two timer branches, path rules on change "
-            "notification, and term rules on the exponential back-off.")
+    return ("Symbolic path summaries of the anchored functions (locals, parameters, simple private helpers "
+            "and comprehension variables eliminated; conditions split into canonical atoms; writes and calls in "
+            "order): per-path implication rules for the validity predicates (not-False result => every "
+            "disqualifying fact tested and excluded), the health flags (True => all required predicates True), "
+            "the status decision, the two timer branches of the select loop, change notification, and "
+            "polynomial-normal-form rules on the exponential back-off.")
